@@ -7,10 +7,12 @@ package document
 // docParts: the package-level containers every constructor (New, Open*, cloneDocument) allocates.
 //@ spec docParts(d *Document) bool = d != nil && d.Body != nil && d.parts != nil && d.contentTypes != nil && d.relationships != nil && d.documentRelationships != nil && d.styleManager != nil
 
+// C13: a styles part that is not passed through (stylesKept) is regenerated from the style registry in this very call
+// (fresh array; serializeStyles says from what), also on the second and every later save.
 // Save returns nil only if no I/O call failed, every resource it opened (the file, the zip writer) was
 // closed successfully, and the archive holds exactly the parts of the in-memory package at that moment.
 //@ func (*Document).Save
-//@ props C05, C04, C01
+//@ props C05, C04, C01, C13
 //@ requires docParts(d) && !ioFailed()
 //@ ensures result == nil ==> !ioFailed()
 //@ ensures result == nil ==> openCount() == old(openCount())
@@ -18,8 +20,10 @@ package document
 //@ ensures result == nil ==> forall k string :: has(d.parts, k) ==> zipData(k) == d.parts[k]
 //@ ensures result == nil ==> zipHas("[Content_Types].xml") && zipHas("_rels/.rels") && zipHas("word/document.xml") && zipHas("word/_rels/document.xml.rels") && zipHas("word/styles.xml")
 //@ ensures result == nil ==> forall k string :: !genPart(k) ==> (zipHas(k) <==> old(has(d.parts, k))) && (old(has(d.parts, k)) ==> zipData(k) == old(d.parts[k]))
-//@ ensures result == nil && old(has(d.parts, "word/styles.xml") && len(d.parts["word/styles.xml"]) > 0) ==> zipData("word/styles.xml") == old(d.parts["word/styles.xml"])
-//@ ensures unchangedExcept("map:string:[]byte")
+//@ ensures result == nil && old(stylesKept(d)) ==> zipData("word/styles.xml") == old(d.parts["word/styles.xml"]) && !d.stylesGenerated
+//@ ensures result == nil && !old(stylesKept(d)) ==> d.stylesGenerated && freshArr(zipData("word/styles.xml"))
+//@ ensures unchangedExcept("map:string:[]byte", "Document.stylesGenerated")
+//@ ensures forall x *Document :: x != d ==> x.stylesGenerated == old(x.stylesGenerated)
 //@ loop 1
 //@   invariant !ioFailed() && openCount() == old(openCount()) + 2 && file != zipWriter && isOpen(file) && isOpen(zipWriter)
 //@   invariant forall k string :: zipHas(k) <==> seen(k)
@@ -28,7 +32,7 @@ package document
 // ToBytes: the same archive content as Save (both follow the same five serialisation steps and then
 // write d.parts), all writes and the final Close checked.
 //@ func (*Document).ToBytes
-//@ props C05, C04, C01
+//@ props C05, C04, C01, C13
 //@ requires docParts(d) && !ioFailed()
 //@ ensures err == nil ==> !ioFailed()
 //@ ensures err == nil ==> openCount() == old(openCount())
@@ -36,8 +40,10 @@ package document
 //@ ensures err == nil ==> forall k string :: has(d.parts, k) ==> zipData(k) == d.parts[k]
 //@ ensures err == nil ==> zipHas("[Content_Types].xml") && zipHas("_rels/.rels") && zipHas("word/document.xml") && zipHas("word/_rels/document.xml.rels") && zipHas("word/styles.xml")
 //@ ensures err == nil ==> forall k string :: !genPart(k) ==> (zipHas(k) <==> old(has(d.parts, k))) && (old(has(d.parts, k)) ==> zipData(k) == old(d.parts[k]))
-//@ ensures err == nil && old(has(d.parts, "word/styles.xml") && len(d.parts["word/styles.xml"]) > 0) ==> zipData("word/styles.xml") == old(d.parts["word/styles.xml"])
-//@ ensures unchangedExcept("map:string:[]byte")
+//@ ensures err == nil && old(stylesKept(d)) ==> zipData("word/styles.xml") == old(d.parts["word/styles.xml"]) && !d.stylesGenerated
+//@ ensures err == nil && !old(stylesKept(d)) ==> d.stylesGenerated && freshArr(zipData("word/styles.xml"))
+//@ ensures unchangedExcept("map:string:[]byte", "Document.stylesGenerated")
+//@ ensures forall x *Document :: x != d ==> x.stylesGenerated == old(x.stylesGenerated)
 //@ loop 1
 //@   invariant !ioFailed() && openCount() == old(openCount()) + 1 && isOpen(zipWriter)
 //@   invariant forall k string :: zipHas(k) <==> seen(k)
@@ -58,16 +64,35 @@ package document
 //@ ensures err == nil ==> freshArr(d.parts["word/document.xml"])
 //@ ensures unchangedExcept("map:string:[]byte")
 
+// stylesKept(d): the styles part came with an opened (or cloned-from-opened) package and the library has not
+// generated it: it is passed through verbatim (C04: docDefaults, latent styles and everything else the style
+// model does not hold survive). A part the library generated itself (d.stylesGenerated) - or a missing/empty one -
+// is rebuilt from the style registry on EVERY save (C13: styles added, changed or removed through the style API
+// after an earlier save are written; before fix 312c237 the part was only generated when absent).
+//@ spec stylesKept(d *Document) bool = has(d.parts, "word/styles.xml") && len(d.parts["word/styles.xml"]) > 0 && !d.stylesGenerated
+
+// Regenerated case: exactly one value is marshalled, a stylesXML whose Styles list is the result of GetAllStyles on
+// the registry as it is at the call - every registered id is in the list, every listed style is a registered one,
+// (when styles are registered under their own ids) no style twice - and the part ends with the bytes the
+// serialiser returned for it. What those bytes look like is outside the model (xml.MarshalIndent assumption).
 //@ func (*Document).serializeStyles
-//@ props C05, C04, C01
+//@ props C05, C04, C01, C13
 //@ requires d != nil && d.parts != nil && d.styleManager != nil
 //@ ensures err == nil ==> has(d.parts, "word/styles.xml")
 //@ ensures err != nil ==> unchangedHeap()
-//@ ensures old(has(d.parts, "word/styles.xml") && len(d.parts["word/styles.xml"]) > 0) ==> err == nil && unchangedHeap()
+//@ ensures old(stylesKept(d)) ==> err == nil && unchangedHeap() && marshalCount() == old(marshalCount())
 //@ ensures forall k string :: k != "word/styles.xml" ==> (has(d.parts, k) <==> old(has(d.parts, k))) && d.parts[k] == old(d.parts[k])
 //@ ensures forall m map[string][]byte, k string :: m != d.parts ==> (has(m, k) <==> old(has(m, k))) && m[k] == old(m[k])
-//@ ensures err == nil && !old(has(d.parts, "word/styles.xml") && len(d.parts["word/styles.xml"]) > 0) ==> freshArr(d.parts["word/styles.xml"])
-//@ ensures unchangedExcept("map:string:[]byte")
+//@ ensures err == nil && !old(stylesKept(d)) ==> freshArr(d.parts["word/styles.xml"]) && d.stylesGenerated
+//@ ensures unchangedExcept("map:string:[]byte", "Document.stylesGenerated")
+//@ ensures forall x *Document :: x != d ==> x.stylesGenerated == old(x.stylesGenerated)
+//@ ensures err != nil ==> marshalCount() == old(marshalCount())
+//@ ensures err == nil && !old(stylesKept(d)) ==> marshalCount() == old(marshalCount()) + 1 && typeIs(marshalAt(old(marshalCount())), "stylesXML")
+//@ ensures err == nil && !old(stylesKept(d)) ==> len(d.parts["word/styles.xml"]) >= len(marshalOut(old(marshalCount()))) && (forall i int :: 0 <= i && i < len(marshalOut(old(marshalCount()))) ==> d.parts["word/styles.xml"][len(d.parts["word/styles.xml"]) - len(marshalOut(old(marshalCount()))) + i] == marshalOut(old(marshalCount()))[i])
+//@ ensures err == nil && !old(stylesKept(d)) ==> forall k string :: has(d.styleManager.styles, k) ==> exists j int :: 0 <= j && j < len(marshalAt(old(marshalCount())).(stylesXML).Styles) && marshalAt(old(marshalCount())).(stylesXML).Styles[j] == d.styleManager.styles[k]
+//@ ensures err == nil && !old(stylesKept(d)) ==> forall j int :: 0 <= j && j < len(marshalAt(old(marshalCount())).(stylesXML).Styles) ==> exists k string :: has(d.styleManager.styles, k) && marshalAt(old(marshalCount())).(stylesXML).Styles[j] == d.styleManager.styles[k]
+//@ ensures err == nil && !old(stylesKept(d)) && old(style.styRegOK(d.styleManager)) ==> forall j int :: 0 <= j && j < len(marshalAt(old(marshalCount())).(stylesXML).Styles) ==> marshalAt(old(marshalCount())).(stylesXML).Styles[j] != nil && has(d.styleManager.styles, marshalAt(old(marshalCount())).(stylesXML).Styles[j].StyleID)
+//@ ensures err == nil && !old(stylesKept(d)) && old(style.styRegOK(d.styleManager)) ==> forall i int, j int :: 0 <= i && i < j && j < len(marshalAt(old(marshalCount())).(stylesXML).Styles) ==> marshalAt(old(marshalCount())).(stylesXML).Styles[i] != marshalAt(old(marshalCount())).(stylesXML).Styles[j]
 
 //@ func (*Document).serializeContentTypes
 //@ props C05, C04, C01
